@@ -35,6 +35,10 @@ CONTEXTS = [
     "v{}+", "₌{}+", "₌+{}", "≬{}++", "≬+{}+", "≬++{}", "&{}", "~{}+", "ß{}", "ƒ{}", "ɖ{}", "⁽{}+", "‡{}+", "‡+{}", "₍{}+", "₍+{}",
     "[({})|+]", "(⟨{}|+⟩)", "λ[+|{}];", "⟨v{}|+⟩", "@f|({});", "{{[{}]|+}}", "ƛ⟨+|{}⟩;+", "[+|λ{};|+]",
     "[+|({}", "λ⟨{}", "(ƛ{}",
+    # the literal is the LAST token of its branch / program after a modifier
+    "v{}", "[1|v{}]2", "(n⁽{})3", "λ~{};", "₍+{}", "⟨+|ß{}⟩",
+    # the literal is followed, later in the program, by closers and another comment (text that could pair up with a payload)
+    "{}(+)#a\n", "{}{{+|+}}#a\n", "{}[+]#a\n+", "{}⟨+⟩#a\n", "{}λ+;#a\n", "1{}\n{{:|‹}}# z\n_",
 ]
 
 
